@@ -227,6 +227,8 @@ class Interp(Ops):
             return z3.Contains(self.st.heap[(container.ref, "seq")], z3.Unit(xt))
         if isinstance(container, VStr) and isinstance(x, VStr):
             return z3.Contains(container.term, x.term)
+        if getattr(container, "kind", "") == "bytearray" and isinstance(x, VBytes):
+            return z3.Contains(self.st.heap[(container.ref, "content")], x.term)
         raise Unsupported(f"membership in {container!r}")
 
     def concrete_key(self, v: V):
@@ -648,7 +650,16 @@ class Interp(Ops):
             ca = self.repo.find_class_attr(ci, attr)
             if ca is not None:
                 c, node = ca
-                return self.eval(node, Frame(FuncInfo("<class>", c.path, node, c, c.module, [], ""), cls=c))
+                key = ("classattr", c.name, attr)
+                if key in self.st.heap:
+                    return self.st.heap[key]
+                val = self.eval(node, Frame(FuncInfo("<class>", c.path, node, c, c.module, [], ""), cls=c))
+                if getattr(val, "kind", "") == "bytearray" or isinstance(val, (VList, VDict)):
+                    # a mutable object built in the class body: ONE object shared by all instances
+                    if hasattr(val, "class_level"):
+                        val.class_level = True
+                    self.st.heap[key] = val
+                return val
         # method known only through a contract (abstract / external classes)
         if self.find_contract_for_method(o.cls, attr) is not None:
             c = self.find_contract_for_method(o.cls, attr)
@@ -659,7 +670,37 @@ class Interp(Ops):
             return VMethod(o, o.cls, attr)
         if not o.symbolic and attr in self.tenv.fields_of(o.cls):
             raise_("AttributeError", f"{o.cls}.{attr} is not set")
+        if not o.symbolic and ci is not None:
+            t = self.init_assigned_type(ci, attr)
+            if t is not None:
+                # an instance attribute the sidecar does not know: assigned in __init__ from an annotated parameter
+                v = mk_sym(self.st, self.tenv, t, self.st.fresh_name(f"{o.cls}.{attr}"))
+                self.st.heap[(o.ref, attr)] = v
+                self.st.notes.append(f"attribute {o.cls}.{attr} taken from __init__ (not in the sidecar shape)")
+                return v
         raise Unsupported(f"attribute {o.cls}.{attr}")
+
+    def init_assigned_type(self, ci, attr):
+        init = self.repo.find_method(ci, "__init__")
+        if init is None:
+            return None
+        anns = {a.arg: a.annotation for a in (init.node.args.posonlyargs + init.node.args.args + init.node.args.kwonlyargs)}
+        for st_ in ast.walk(init.node):
+            if isinstance(st_, ast.Assign) and len(st_.targets) == 1 and isinstance(st_.targets[0], ast.Attribute) \
+                    and isinstance(st_.targets[0].value, ast.Name) and st_.targets[0].value.id == "self" \
+                    and st_.targets[0].attr == attr:
+                names = [n.id for n in ast.walk(st_.value) if isinstance(n, ast.Name) and anns.get(n.id) is not None]
+                if len(set(names)) != 1:
+                    return None
+                try:
+                    t = self.tenv.parse(anns[names[0]])
+                except Unsupported:
+                    return None
+                if isinstance(st_.value, ast.IfExp) and t[0] == "opt" and any(
+                        isinstance(b, ast.Constant) and b.value is not None for b in (st_.value.body, st_.value.orelse)):
+                    t = t[1]        # `default if p is None else p`: never None
+                return t
+        return None
 
     def class_getattr(self, c: VClass, attr: str) -> V:
         ci = self.repo.cls(c.name)
